@@ -33,6 +33,7 @@ def run(ck):
                                                                tblgen_sample=(25 if quick else 400))
     doc_layout_probes(ck)
     range_let_probes(ck)
+    override_doc_probes(ck)
     ck.count("generated", len(progs) + nfaults, nontriv if not nfaults else set(range(len(nontriv) + nfaults)),
              sample={"files": progs[0].files}, seeded_faults=nfaults,
              coverage=semcheck.cov_summary(cov, ["doc:", "hint:", "classref:", "decl:"]), llvm_tblgen_audit=audited)
@@ -150,6 +151,36 @@ def range_let_probes(ck):
     st = ck.cov["streams"].setdefault("range_let", {"evaluations": 0, "distinct_nontrivial": 0})
     st["model_disagreements"] = ndis
     ck.count("range_let", len(cases), {t for t, _ in cases}, sample={"text": cases[0][0]})
+
+
+def override_doc_probes(ck):
+    """the documentation shown is the comment directly above the declaration go-to-definition lands on - also when that declaration is
+    the entry a `let` made for an inherited field, which has a comment of its own or none (never the overridden field's)"""
+    a = "class A {\n  // width of the thing\n  int x = 0;\n}\n"
+    probes = [
+        (a + "class B : A {\n  let x = 1;\n}\ndef d : B {\n  let x = 2;\n}\n", "x = 2", None),
+        (a + "class B : A {\n  let x = 1;\n  int y = x;\n}\n", "x;", None),
+        (a + "class B : A {\n  int y = x;\n  let x = 1;\n}\n", "x;", "width of the thing"),
+        (a + "class B : A {\n  // narrower here\n  let x = 1;\n  int y = x;\n}\n", "x;", "narrower here"),
+        (a + "class B : A {\n  // detached\n\n  let x = 1;\n}\ndef d : B;\ndef e {\n  int z = d.x;\n}\n", "x;\n}\n", None),
+        (a + "class B : A {\n  let x = 1;\n}\nclass C : B {\n  let x = 2;\n}\ndef d : C {\n  int w = x;\n}\n", "x;\n}\n", None),
+        (a + "def d : A {\n  int w = x;\n}\n", "x;\n}\n", "width of the thing"),
+    ]
+    lines = []
+    for text, marker, _ in probes:
+        off = text.rindex(marker)
+        lines.append("ws " + json.dumps({"files": {"/main.td": text}, "root": "/main.td", "queries": [["hover", "/main.td", off], ["goto", "/main.td", off]]}))
+    outs = core.impl(lines, tag="ovd19")
+    for (text, marker, want), o in zip(probes, outs):
+        try:
+            ans = json.loads(o)
+        except Exception:
+            continue
+        got = (ans[0] or {}).get("document")
+        if (got or None) != want:
+            ck.fail(["C19", "doc", "let-override-entry"], "hover at %r shows the documentation %r; the comment directly above the declaration it resolves to is %r" % (marker, got, want),
+                    {"files": {"/main.td": text}, "root": "/main.td", "detail": {"probe": "override-doc", "goto": ans[1]}}, json.dumps(got), json.dumps(want))
+    ck.count("override_doc_probes", len(probes), {t for t, _, _ in probes}, sample={"text": probes[0][0]})
 
 
 def replay(ck, path):
